@@ -16,6 +16,8 @@ PROGS = {
     # @echo writes to standard error, never into the image stream
     "ok_echo": ('@echo 6 * 7\n@echo "text"\n@db 1, 2\n@echo 1 + 1\n', False),
     "fail_echo": ('@echo 6 * 7\n@db 1\n@echo "text"\n@db 300\n', False),
+    # the fault sits twenty expansions deep (the message lists the whole chain; nothing of it belongs on standard output)
+    "fail_deep": ("@db 1, 2\n" + "".join("@macro dp%d, 0\n%s\n@endmacro\n" % (k, "@db 300" if k == 20 else "dp%d\n@db 0" % (k + 1)) for k in range(20, 0, -1)) + "dp1\n@db 3\n", False),
     "parse_fail": ('@db 1, 2, 3\n@dw 4\n@db 300\n@db 5\n', False),
     "parse_fail_late": ('@org $c000\nq: @ds 200\n@db "some bytes"\n  @bogus 1\n', False),
     "link_fail_undef": ('@db 1, 2, 3\n@dw nosuch\n@db 4\n', False),
@@ -302,22 +304,24 @@ def run(ck):
                                                      ["before", "after", "between"]):
             d = tempfile.mkdtemp(prefix="az65_c15_")
             try:
-                for sub, body in (("src", None), ("lib", "@db $99\n"), ("src/lib", "@db $77\n")):
+                for sub, body, blob in (("src", None, None), ("lib", "@db $99\n", b"\x98"), ("src/lib", "@db $77\n", b"\x76")):
                     os.makedirs(os.path.join(d, sub), exist_ok=True)
                     if body:
                         open(os.path.join(d, sub, "lib.inc"), "w").write(body)
-                open(os.path.join(d, "src", "main.asm"), "w").write(PROGS["ok_inc"][0])
+                        open(os.path.join(d, sub, "lib.bin"), "wb").write(blob)
+                # both kinds of file are looked up through -I
+                open(os.path.join(d, "src", "main.asm"), "w").write(PROGS["ok_inc"][0] + '@incbin "lib.bin"\n')
                 argv = {"before": list(incarg) + [arch, filearg], "after": [arch, filearg] + list(incarg),
                         "between": [arch] + list(incarg) + [filearg]}[pl]
                 p = subprocess.run([az] + argv, cwd=d, stdout=subprocess.PIPE, stderr=subprocess.PIPE, timeout=60)
                 ck.evaluations += 1
                 ck.nontriv("incdir:" + " ".join(argv))
                 ck.count("include-dir:rc=%s" % p.returncode)
-                if p.returncode != 0 or p.stdout != bytes([0x11, 0x99, 0x22]):
+                if p.returncode != 0 or p.stdout != bytes([0x11, 0x99, 0x22, 0x98]):
                     ck.violation("`az65 %s` (lib/lib.inc holds $99, the decoy src/lib/lib.inc $77): exit %s, stdout %s, stderr %r" % (
                         " ".join(argv), p.returncode, p.stdout.hex(), p.stderr.decode("utf8", "replace")[:120]),
                         {"mode": "cli", "argv": ["az65"] + argv, "files": {"src/main.asm": PROGS["ok_inc"][0], "lib/lib.inc": "@db $99\n", "src/lib/lib.inc": "@db $77\n"},
-                         "expected": "exit 0, stdout 119922"})
+                         "expected": "exit 0, stdout 11992298"})
                     break
             finally:
                 shutil.rmtree(d, ignore_errors=True)
